@@ -525,6 +525,43 @@ func c10Run(r *verifkit.Run, i int, seed uint64, cfg e2Cfg, crash c10Crash, ref 
 		}
 	}
 
+	// every vote handed to the mirror, before or after the restart, is the one recorded in the
+	// action store for that height, round and kind (same target, same signature)
+	{
+		type ak struct {
+			sub string
+			h   uint64
+			r   uint32
+		}
+		saved := map[ak]*e2Ev{}
+		for k := range t.evs {
+			e := &t.evs[k]
+			switch e.K {
+			case e2kASaveOut:
+				if e.OK && (e.Sub == "prevote" || e.Sub == "precommit") {
+					key := ak{e.Sub, e.H, e.R}
+					if saved[key] == nil {
+						saved[key] = e
+					}
+				}
+			case e2kAction:
+				if e.Sub != "prevote" && e.Sub != "precommit" {
+					continue
+				}
+				sv := saved[ak{e.Sub, e.H, e.R}]
+				if sv == nil {
+					continue // released before recorded is C02's matter
+				}
+				t.judged["released-vote-compared-with-recorded"]++
+				if sv.Hash != e.Hash || sv.Sig != e.Sig {
+					add("C10:statemachine:released-vote-differs-from-the-one-recorded",
+						"the %s handed to the mirror for %d/%d by instance %d (target %x) is not the one the action store recorded for that round (target %x): a vote persisted before the stop does not come back as it was",
+						e.Sub, e.H, e.R, e.Inst, e.Hash, sv.Hash)
+				}
+			}
+		}
+	}
+
 	agg.merge(w, t)
 	r.Eval(1)
 	if res.restarted {
